@@ -29,7 +29,8 @@ def shape(freq, name, parts, B=3, K=2, inter=1, cand=2, extra=(), uw=None, **kw)
     }
     unwindset.update(uw or {})
     o = dict(name='%s_%s_i%d' % (FNAME[freq], name, inter), src='h_rrul.c', defs=defs, units=U, incl=['src/evrrul.c'], replay_units='all',
-             unwind=4, unwindset=unwindset, solver='cadical', timeout=900, mem_gb=8, extra=['--max-field-sensitivity-array-size', '4'],
+             unwind=4, unwindset=unwindset, solver='cadical', timeout=3000 if freq <= 3 else 1200, mem_gb=16 if freq <= 3 else 6,
+             extra=['--max-field-sensitivity-array-size', '4'],
              checks=['--bounds-check', '--div-by-zero-check'],
              enc=[FN[freq], 'make_enum', 'fill_*', 'clr_poss', 'shift', 'ymcw_get_dom', 'ywd_to_md', 'yd_to_md', 'ycw_get_yday', 'bitint.h', 'bitint.c', 'echs_scale_ndim/wday'],
              sym='DTSTART, every BY-list value, COUNT/UNTIL, gap witness z, density witness w',
@@ -49,31 +50,35 @@ def add(freq, name, parts, quick_inters=(1,), all_inters=(1, 2, 3), **kw):
 
 # --- no BY-part: pure period arithmetic, one per frequency
 for f in (1, 2, 3, 4, 5, 6, 7):
-    add(f, 'plain', {}, quick_inters=(2,) if f in (2, 4, 5) else (), cand=1)
+    add(f, 'plain', {}, quick_inters=(2,) if f in (4, 5) else (), cand=1)
+# --- monthly, intervals beyond a year (the month/year carry of the period step)
+add(2, 'plain', {}, quick_inters=(13,), all_inters=(13, 25), cand=1)
+add(1, 'plain', {}, quick_inters=(), all_inters=(5,), cand=1)
 # --- monthly
-add(2, 'bymonthday1', {'NDOM': 1}, quick_inters=(1,), cand=1)
+add(2, 'bymonthday1', {'NDOM': 1}, quick_inters=(), cand=1)
 add(2, 'bymonthday2', {'NDOM': 2}, quick_inters=(), cand=2)
 add(2, 'byday1', {'NDOW': 1}, quick_inters=(), cand=5, timeout=1500)
-add(2, 'bydayord1', {'NDOW': 1}, quick_inters=(1,), cand=1, extra=['DOW_ORD'])
+add(2, 'bydayord1', {'NDOW': 1}, quick_inters=(), cand=1, extra=['DOW_ORD'])
 add(2, 'bymonth1', {'NMON': 1}, quick_inters=(), cand=1)
 add(2, 'byhour2', {'NH': 2}, quick_inters=(), cand=1)
 # --- yearly
-add(1, 'bymonth1', {'NMON': 1}, quick_inters=(1,), cand=1)
+add(1, 'bymonth1', {'NMON': 1}, quick_inters=(), cand=1)
 add(1, 'bymonth1_bymonthday1', {'NMON': 1, 'NDOM': 1}, quick_inters=(), cand=1)
 add(1, 'bymonthday1', {'NDOM': 1}, quick_inters=(), cand=12, timeout=1500)
-add(1, 'byyearday1', {'NDOY': 1}, quick_inters=(1,), cand=1)
+add(1, 'byyearday1', {'NDOY': 1}, quick_inters=(), cand=1)
 add(1, 'bymonth1_bydayord1', {'NMON': 1, 'NDOW': 1}, quick_inters=(), cand=1, extra=['DOW_ORD'])
 add(1, 'bydayord1', {'NDOW': 1}, quick_inters=(), cand=1, extra=['DOW_ORD'])
 add(1, 'byweekno1_byday1', {'NWK': 1, 'NDOW': 1}, quick_inters=(), cand=1)
 # --- weekly / daily / hourly .. with limiting parts
-add(3, 'byday2', {'NDOW': 2}, quick_inters=(1,), cand=1)
+add(3, 'byday2', {'NDOW': 2}, quick_inters=(), cand=1)
 add(4, 'bymonth1', {'NMON': 1}, quick_inters=(), cand=1, all_inters=(1, 2))
 add(4, 'bymonthday1', {'NDOM': 1}, quick_inters=(), cand=1, all_inters=(1, 2))
 add(4, 'byhour2_byminute2', {'NH': 2, 'NM': 2}, quick_inters=(), cand=1, all_inters=(1,))
 add(5, 'byminute2', {'NM': 2}, quick_inters=(), cand=1, all_inters=(1, 2))
 add(6, 'bysecond2', {'NS': 2}, quick_inters=(), cand=1, all_inters=(1, 2))
 # --- COUNT and UNTIL
-OBLIGATIONS.append(shape(2, 'bymonthday1_count', {'NDOM': 1}, inter=1, extra=['WITH_COUNT'], tiers=Q, cand=1))
+OBLIGATIONS.append(shape(2, 'bymonthday1_count', {'NDOM': 1}, inter=1, extra=['WITH_COUNT'], tiers=T, cand=1))
+OBLIGATIONS.append(shape(4, 'plain_count', {}, inter=1, extra=['WITH_COUNT'], tiers=Q, cand=1))
 OBLIGATIONS.append(shape(4, 'plain_until', {}, inter=1, extra=['WITH_UNTIL'], tiers=Q, cand=1))
 OBLIGATIONS.append(shape(1, 'bymonth1_until', {'NMON': 1}, inter=1, extra=['WITH_UNTIL'], tiers=T, cand=1))
 OBLIGATIONS.append(shape(3, 'plain_allday', {}, inter=1, extra=['ALLDAY'], tiers=T, cand=1))
